@@ -5,11 +5,31 @@ HERE = os.path.dirname(os.path.dirname(os.path.abspath(__file__)))
 ALL = ["C%02d" % i for i in range(1, 21)]
 
 CHECKS = {
+ "C01": dict(
+   technique="finite-domain evaluation of the all-proposals loop gates over the enum domains, path-condition entailment, who-may-write (ownership) scan",
+   text="The five transaction-level state advances are shown to be gated by an all-elements flag over exactly T.Status.Proposals whose loop body, evaluated over the whole state enum, lets only the target state pass; a FAILED validation is shown to fail the transaction and open Abort without ever opening Commit; phases are opened only from their predecessor state and only by the transaction controller; the abort path performs no value-persisting effect and the commit path has no failure outcome. Decides the code shape behind all-or-nothing, not store atomicity.",
+   note="Trusted: go/types, the occheck path enumerator/canonicaliser/literal solver, the obligation table. Assumes enum fields hold declared constants. Not covered: atomicity of the Atomix stores, crash atomicity beyond C07.",
+   ref="DESIGN.md §3 C01"),
  "C02": dict(
    technique="path-condition entailment over enumerated reconciler paths (guarded-effect analysis on the type-checked AST), ownership of cursor writes",
    text="Every ordering guard of the v2 protocol (transaction init order, chain linking, validate/commit/apply cursor guards, apply-after-commit, own-index cursor writes, no terminal state with a cursor left on the predecessor) is shown to dominate its effect on every enumerated path of the v2 proposal and transaction reconcilers. This decides the code shape that makes log order hold on every schedule; it does not observe orders at run time.",
    note="Trusted: go/types, the occheck path enumerator/canonicaliser/literal solver, the obligation table. Not covered: interleavings between a guard and its write (relies on C15's version-checked writes), device behaviour.",
    ref="DESIGN.md §3 C02, §2"),
+ "C07": dict(
+   technique="path-condition entailment (re-entrancy guards), must-precede over enumerated paths (write order), effect-after-effect exclusion, receiver-field ownership, call-argument rule (WithReplay)",
+   text="Crash safety is reduced to re-entrancy of every reconcile step and decided structurally: non-idempotent effects sit behind the cursor guards that skip a repeated step, the re-entrancy record is written (and its error honoured) before the status that depends on it, a pass ends after a status write, AlreadyExists is tolerated after Create, reconcilers hold only store interfaces and assign no field, and every controller watcher subscribes with replay.",
+   note="Trusted: as C02. Not covered: equivalence of final outcomes with/without a crash (history property), Atomix durability.",
+   ref="DESIGN.md §3 C07"),
+ "C09": dict(
+   technique="outcome tables over enumerated paths (which class of paths must return which re-queue / error), frozen watcher event-to-id tables",
+   text="The wake-up obligations the fixed-point argument rests on are decided: predecessor waits re-queue the predecessor, terminal states of cursor-advancing phases re-queue the successor, Validate entry and failed Initialize re-queue index+1, watcher bodies send exactly the frozen ids, unclassified store failures are returned as errors. Liveness itself is not decided.",
+   note="Trusted: as C02 plus the frozen wake-up table. Known finding F24 (serializable waits carry no wake-up) is listed. Not covered: delivery by the controller library, new kinds of waits.",
+   ref="DESIGN.md §3 C09"),
+ "C10": dict(
+   technique="ownership of term/master writes (operator and package), path-condition entailment of election and master guards, request dataflow (arbitration extension), who-may-call",
+   text="The term is shown to be written by ++ only, in the election branch only; a master is assigned only together with a term increment and only from the CONTROLS/self/target-filtered relation set; CONTROLS relations mirror connections; every southbound Set is sent over the master relation's connection under the master guards and carries the term as election id; no new change is sent while SYNCHRONIZING or in a stale applied term.",
+   note="Trusted: as C02. Not covered: simultaneous beliefs of several nodes, the device's arbitration.",
+   ref="DESIGN.md §3 C10"),
 }
 
 def main():
